@@ -46,6 +46,29 @@ def run(ctx):
 
 
 # ---------------------------------------------------------------------------------------------
+WRITE_RX = re.compile(r"Vec::<T, A>::(push|extend_from_slice|extend|insert|append)$")
+
+
+def buffer_writes(facts, b, depth=1):
+    """[(body, block, terminator, value expression)] of the writes into a byte buffer made by `b`, in block order; a call
+    to a method of the same module that is handed `self` and the `&mut Vec<u8>` is replaced by that method's own writes
+    (its expressions name the same struct's fields through its own `self`)."""
+    dbg = bounds.debug_only_blocks(b)
+    out = []
+    for bb, t in sorted(b.calls(), key=lambda x: x[0]):
+        if bb in dbg:
+            continue
+        fn = F.callee(t)[0] or ""
+        if WRITE_RX.search(fn):
+            out.append((b, bb, t, flow.expr_of(b, t["args"][-1])))
+        elif depth > 0 and fn in facts.bodies and fn.rsplit("::", 2)[0] == b.path.rsplit("::", 2)[0] and len(t["args"]) >= 2:
+            a0 = flow.strip_casts(flow.expr_of(b, t["args"][0], max_depth=4))
+            tys = [b.local_ty(F.op_local(a)) or "" for a in t["args"][1:] if F.op_local(a) is not None]
+            if a0[:2] == ("arg", 1) and any("Vec<u8>" in ty for ty in tys):
+                out += buffer_writes(facts, facts.bodies[fn], depth - 1)
+    return out
+
+
 def fields_aad(ctx, facts):
     ctx.rule("FIELDS-aad: every field of Hybrid{Conversion,Impression}Info and the constants DOMAIN, HELPER_ORIGIN flow into the Vec returned by to_enc_bytes")
     for ty in ("HybridConversionInfo", "HybridImpressionInfo"):
@@ -60,10 +83,8 @@ def fields_aad(ctx, facts):
         written = set()
         written_exprs = []
         consts = set()
-        for bb, t in b.calls():
-            fn = F.callee(t)[0] or ""
-            if re.search(r"Vec::<T, A>::(push|extend_from_slice|extend|insert|append)$", fn) and not bounds.debug_only_blocks(b).__contains__(bb):
-                e = flow.expr_of(b, t["args"][-1])
+        for wb_, bb, t, e in buffer_writes(facts, b):
+            if True:
                 written |= flow.field_names_in(e)
                 written_exprs.append(e)
                 s = str(e)
